@@ -26,7 +26,8 @@ def module_of(patch):
 
 def confirm(sid):
     sd = os.path.join(ROOT, "seeded", sid)
-    patch = open(os.path.join(sd, "patch.diff")).read()
+    pfile = os.path.join(sd, "patch.rebased.diff") if os.path.exists(os.path.join(sd, "patch.rebased.diff")) else os.path.join(sd, "patch.diff")
+    patch = open(pfile).read()
     demo = open(os.path.join(sd, "demo_test.go.txt")).read()
     mods, files = module_of(patch)
     wt = tempfile.mkdtemp(prefix="seedwt-")
@@ -35,15 +36,20 @@ def confirm(sid):
     try:
         rc, out = sh("git -C %s worktree add -q --detach %s HEAD" % (REPO, wt), REPO)
         if rc: res["error"] = out; return res
-        rc, out = sh("git apply --check %s" % os.path.join(sd, "patch.diff"), wt)
+        rc, out = sh("git apply --check %s" % pfile, wt)
         res["applies"] = rc == 0
         if rc:
             res["apply_error"] = out[-500:]
             return res
         # demo placement: package clause decides the directory
-        pkgdir = mods[0] if mods != ["."] else "."
-        m = re.search(r"(?:Placement|place|directory)[^\n]*?(plugins/[\w/\-]+|ee/plugins/\w+)", demo)
-        if m: pkgdir = m.group(1)
+        pkgdir = os.path.dirname(files[0]) or "."
+        for m in re.finditer(r"(ee/plugins/[\w\-]+|plugins/[\w/\-]+)", demo[:1500]):
+            cand = m.group(1).rstrip("/")
+            while cand and not os.path.isdir(os.path.join(wt, cand)):
+                cand = os.path.dirname(cand)
+            if cand and os.path.isdir(os.path.join(wt, cand)) and any(f.endswith(".go") for f in os.listdir(os.path.join(wt, cand))):
+                pkgdir = cand
+                break
         demo_path = os.path.join(wt, pkgdir, "zz_seed_demo_test.go")
         run = re.findall(r"func (Test\w+)\(", demo)
         pat = "|".join(run) if run else "."
@@ -54,7 +60,7 @@ def confirm(sid):
         res["demo_without"] = "pass" if rc == 0 else "FAIL"
         res["demo_without_tail"] = out[-300:]
         os.remove(demo_path)
-        sh("git apply %s" % os.path.join(sd, "patch.diff"), wt)
+        sh("git apply %s" % pfile, wt)
         rc, out = sh("go build ./...", wt)
         res["builds"] = rc == 0
         if rc:
